@@ -6,8 +6,19 @@
   returned unchanged.  The lock-step theorem over committed grammars is in
   progress; the `twice` family (each case run under `Context::empty()` and under
   a sink) + oracle carries the statement meanwhile.
+
+  First clause, proved for the whole combinator family:
+  * `C08_nosink_log_empty`: under a context without a sink (`Context::empty()`,
+    or below `maybe` / `unrecoverable`) NOTHING is reported, whatever the grammar
+    (all constructors of `G`), lexer, fuel and outcome: the sink log after the
+    run is the sink log before it.  (Down the tree the sink can only be switched
+    off — `maybe`, `unrecoverable`, the retry of `stabilize` — never on.)
+  * `C08_sink_monotone`: the general form — the log only grows at the end, and
+    does not grow at all without a sink.
+  Unbounded: any grammar, scanner, lexer, fuel, world.
 -/
 import TephraModel.Run
+import TephraProofs.WorldFrame
 
 namespace Tephra.Props
 open Tephra
@@ -23,5 +34,19 @@ theorem C08_recover_no_sink_returns_error (R : RunEnv) (n : Nat) (dv : Val) (id 
     (h : run R n body lx ctx (W.register id r) = (.err e, W1)) :
     recoverDefault R (n + 1) dv id r body lx ctx W = (.err e, W1) := by
   simp [recoverDefault, h, sendError, hs]
+
+theorem C08_nosink_log_empty (R : RunEnv) (n : Nat) (g : G) (lx : Lx) (ctx : Ctx) (W : World)
+    (h : ctx.sink = false) : (run R n g lx ctx W).2.log = W.log :=
+  WorldFrame.run_nosink_log R n g lx ctx W h
+
+theorem C08_sink_monotone (R : RunEnv) (n : Nat) (g : G) (lx : Lx) (ctx : Ctx) (W : World) :
+    W.log <+: (run R n g lx ctx W).2.log ∧ (ctx.sink = false → (run R n g lx ctx W).2.log = W.log) :=
+  ⟨(WorldFrame.run_world_prefix R n g lx ctx W).1, WorldFrame.run_nosink_log R n g lx ctx W⟩
+
+/-- Non-vacuity / sharpness: with a sink the same grammar does report. -/
+example (R : RunEnv) (lx : Lx) (W : World) :
+    (run R 1 (.probe 0) lx ⟨true, [], false⟩ W).2.log = W.log ++ [⟨[], .probe 0⟩] ∧
+    (run R 1 (.probe 0) lx ⟨false, [], false⟩ W).2.log = W.log := by
+  constructor <;> simp [run, sendError, Ctx.apply, mkErr]
 
 end Tephra.Props
